@@ -444,7 +444,7 @@ def choose_failure(rng: random.Random, spec: dict, escape_prob: float = 0.3, loo
     feeds_loop = _upstream_of_loops(spec)
     rare = [c for c in cands if c[0] in feeds_loop]
     common = [c for c in cands if c[0] not in feeds_loop]
-    cands = rare if (rare and (not common or rng.random() < loop_upstream_prob)) else common
+    cands = rare if (rare and loop_upstream_prob > 0 and (not common or rng.random() < loop_upstream_prob)) else common
     if not cands:
         return None
     nid, tag = rng.choice(cands)
